@@ -392,7 +392,8 @@ def run_case(unit, case, tier, work, extra_defines=(), witness=False, want_trace
         use_json = witness or want_trace
         cmd = ['cbmc', cur] + (['--json-ui'] if use_json else []) + flags
         res.cmds.append(' '.join(cmd))
-        timeout = m.get('timeout', 300) * (3 if tier == 'thorough' else 1)
+        # floor of 600 s: the checks may run on a busier machine than the one they were tuned on
+        timeout = max(m.get('timeout', 300), 600) * (3 if tier == 'thorough' else 1)
         timeout = int(timeout * float(os.environ.get('VERIF_TIMEOUT_SCALE', '1')))
         rc, out, err, secs = run(cmd, work, timeout, mem_gb=m.get('mem_gb', 8),
                                  stdout_path=os.path.join(work, 'cbmc.out'))
